@@ -488,3 +488,66 @@ func (v *Verifier) eventLoggedOnce(cfg PropConfig, sc StructuralCheck) []StructR
 	}
 	return out
 }
+
+// globalsInitOnly: the listed package-level variables are assigned by the package initialiser only (they are
+// singletons: axioms of the form `X != nil` about them rest on this). Every store to the global anywhere in the
+// module must be in the synthetic package init function.
+func (v *Verifier) globalsInitOnly(cfg PropConfig, sc StructuralCheck) []StructResult {
+	var a struct {
+		Pkg     string   `json:"pkg"`
+		Globals []string `json:"globals"`
+	}
+	json.Unmarshal(sc.Args, &a)
+	var out []StructResult
+	for _, g := range a.Globals {
+		var bad []string
+		n := 0
+		found := false
+		for _, fn := range v.moduleFunctions(false) {
+			for _, b := range fn.Blocks {
+				for _, in := range b.Instrs {
+					st, ok := in.(*ssa.Store)
+					if !ok {
+						continue
+					}
+					gl, ok := st.Addr.(*ssa.Global)
+					if !ok || gl.Name() != g || gl.Pkg == nil || !strings.HasSuffix(gl.Pkg.Pkg.Path(), a.Pkg) {
+						continue
+					}
+					found = true
+					n++
+					if fn.Name() != "init" || fn.Synthetic == "" {
+						bad = append(bad, fmt.Sprintf("%s assigns it (%s)", shortKey(fn), v.prog.Fset.Position(st.Pos())))
+					}
+				}
+			}
+		}
+		// the synthetic init is not among moduleFunctions when it is filtered as synthetic: look it up directly
+		if !found {
+			for _, p := range v.prog.AllPackages() {
+				if p.Pkg == nil || !strings.HasSuffix(p.Pkg.Path(), a.Pkg) {
+					continue
+				}
+				if init := p.Func("init"); init != nil {
+					for _, b := range init.Blocks {
+						for _, in := range b.Instrs {
+							if st, ok := in.(*ssa.Store); ok {
+								if gl, ok := st.Addr.(*ssa.Global); ok && gl.Name() == g {
+									found = true
+									n++
+								}
+							}
+						}
+					}
+				}
+			}
+		}
+		if !found {
+			bad = append(bad, "no assignment found (renamed or removed?)")
+		}
+		sort.Strings(bad)
+		out = append(out, StructResult{Name: fmt.Sprintf("%s/structural/globals_init_only[%s.%s]", cfg.ID, a.Pkg, g), Kind: "ownership",
+			Text: fmt.Sprintf("the package-level singleton %s.%s is assigned by the package initialiser only", a.Pkg, g), Detail: fmt.Sprintf("%d assignments; %s", n, strings.Join(uniq(bad), "; ")), OK: len(bad) == 0})
+	}
+	return out
+}
